@@ -299,6 +299,10 @@ def _live(lst):
         i += 1
 
 
+class AKeys(list):
+    """dict.keys() view: ordered like a list, compares and combines like a set"""
+
+
 class _Suppress:
     """contextlib.suppress(*excs)"""
     def __init__(self, excs):
@@ -453,6 +457,8 @@ class Interp:
             "collections.abc": {k: External(k) for k in ("Set", "Iterable", "Iterator", "Sequence", "Mapping", "MutableMapping", "Hashable",
                                                          "Callable", "Collection", "Sized", "Container", "MutableSet", "Generator")},
             "contextlib": {"suppress": ("builtin", "suppress")},
+            "bisect": {"bisect_left": ("builtin", "bisect_left"), "bisect_right": ("builtin", "bisect_right"), "bisect": ("builtin", "bisect_right"),
+                       "insort_left": ("builtin", "insort_left"), "insort_right": ("builtin", "insort_right"), "insort": ("builtin", "insort_right")},
             "copy": {"copy": ("builtin", "copy")},
             "warnings": {"warn": ("builtin", "noop")},
             "math": {"inf": float("inf"), "floor": __import__("math").floor, "ceil": __import__("math").ceil},
@@ -1251,6 +1257,10 @@ class Interp:
                         return res
             raise PyRaise(BuiltinExcValue(EXC["TypeError"], (f"unsupported operand {fwd}", a, b)))
         t = type(op)
+        if isinstance(a, AKeys) or isinstance(b, AKeys):
+            if t in (ast.BitAnd, ast.BitOr, ast.Sub, ast.BitXor):
+                a = ASet(self, a) if isinstance(a, AKeys) else a
+                b = ASet(self, self.iterate(b)) if not isinstance(b, (ASet, set, frozenset)) else b
         if isinstance(a, ASet) or isinstance(b, ASet):
             nm = {ast.BitAnd: "intersection", ast.BitOr: "union", ast.Sub: "difference",
                   ast.BitXor: "symmetric_difference"}.get(t)
@@ -1319,6 +1329,12 @@ class Interp:
         return MISSING
 
     def py_eq(self, a, b):
+        if isinstance(a, AKeys) or isinstance(b, AKeys):
+            if isinstance(a, AKeys) and isinstance(b, (AKeys, set, frozenset, ASet)) or isinstance(b, AKeys) and isinstance(a, (set, frozenset, ASet)):
+                a = ASet(self, a) if not isinstance(a, ASet) else a
+                b = ASet(self, b) if not isinstance(b, ASet) else b
+            else:
+                return False
         if isinstance(a, ASet) or isinstance(b, ASet):
             if isinstance(a, (set, frozenset)):
                 a = ASet(self, a)
@@ -1992,7 +2008,9 @@ class Interp:
                 return obj.join(self.to_str(x) if not isinstance(x, str) else x for x in self.iterate(args[0]))
             return getattr(obj, name)(*args, **kwargs)
         if isinstance(obj, dict):
-            if name in ("items", "keys", "values"):
+            if name == "keys":
+                return AKeys(obj.keys())
+            if name in ("items", "values"):
                 return list(getattr(obj, name)())
             if name in ("get", "pop", "setdefault") and args:
                 args = [self.dkey(obj, args[0])] + list(args[1:])
@@ -2620,6 +2638,30 @@ class Interp:
         if isinstance(repl, str):
             return _re.sub(p, repl, s, count, flags)
         return _re.sub(p, lambda mm: self.call(repl, [Native(mm)], {}), s, count, flags)
+
+    def _bisect(self, a, x, lo, hi, key, right):
+        a = a if isinstance(a, (list, tuple)) else list(self.iterate(a))
+        hi = len(a) if hi is None else hi
+        while lo < hi:
+            mid = (lo + hi) // 2
+            item = self.call(key, [a[mid]], {}) if key is not None else a[mid]
+            if (not self._lt(x, item)) if right else self._lt(item, x):
+                lo = mid + 1
+            else:
+                hi = mid
+        return lo
+
+    def b_bisect_left(self, a, x, lo=0, hi=None, key=None):
+        return self._bisect(a, x, lo, hi, key, False)
+
+    def b_bisect_right(self, a, x, lo=0, hi=None, key=None):
+        return self._bisect(a, x, lo, hi, key, True)
+
+    def b_insort_left(self, a, x, lo=0, hi=None, key=None):
+        a.insert(self._bisect(a, self.call(key, [x], {}) if key is not None else x, lo, hi, key, False), x)
+
+    def b_insort_right(self, a, x, lo=0, hi=None, key=None):
+        a.insert(self._bisect(a, self.call(key, [x], {}) if key is not None else x, lo, hi, key, True), x)
 
     def b_noop(self, *a, **k):
         return None
